@@ -882,8 +882,16 @@ def _strip_comments(line: bytes) -> bytes:
     comment_bytes = {ord(b"#"), ord(b";")}
     quote = ord(b'"')
     string_open = False
+    escaped = False
     # Normalize line to bytearray for simple 2/3 compatibility
     for i, character in enumerate(bytearray(line)):
+        # A backslash-escaped character (e.g. \" in a subsection) is literal
+        if escaped:
+            escaped = False
+            continue
+        if character == ord(b"\\"):
+            escaped = True
+            continue
         # Comment characters outside balanced quotes denote comment start
         if character == quote:
             string_open = not string_open
